@@ -612,9 +612,12 @@ func (c12) Exec(tr *Trace, keep bool) *Outcome {
 	o.Digest = wDigest(rec)
 	o.Sample = fmt.Sprintf("%s %s level %d: %s", sc.Pkg, sc.Ctor, sc.Level, feat["ops"])
 	if rec.Panic != "" {
-		// a panic in h1 (before the last reset) belongs to C16; after it, it is a difference
-		if fr.Panic == "" {
+		// a panic in h1 (before the last Reset) is C16's subject; after it, it is a difference
+		lastReset := len(sc.Ops) - len(fresh.Ops) - 1
+		if fr.Panic == "" && rec.PanicOp > lastReset {
 			o.violate(tr, "C12.panic", rec.Panic, feat)
+		} else {
+			o.stat("h1_panicked", 1)
 		}
 		return o
 	}
